@@ -167,36 +167,65 @@ def switch_reads_local(body, sw, local):
     defs = reaching_defs(body, opp[0], sw.b, 'term')
     return bool(defs) and all(k == 'assign' and st['rv']['k'] == 'use' and op_place(st['rv']['op']) == [local, []] for (_, _, k, st) in defs)
 
+def switch_reads_named_local(body, sw):
+    """the switch tests a named bool variable of the source (not the temporary holding a call's result)"""
+    opp = op_place(sw.t['op'])
+    if opp is None:
+        return False
+    if opp[0] in body.local_names and not opp[1]:
+        return True
+    defs = reaching_defs(body, opp[0], sw.b, 'term')
+    return bool(defs) and all(k == 'assign' and st['rv']['k'] == 'use' and (op_place(st['rv']['op']) or [None, [1]])[0] in body.local_names and not (op_place(st['rv']['op']) or [None, [1]])[1]
+                              for (_, _, k, st) in defs)
+
 def flag_regions(body, calls, full=False):
-    """`let mut f = false; loop { if call() { f = true; break } } if f {A} else {B}`: a bool local that is initialised
-    to false before every one of `calls`, becomes true exactly on their true edges (on every path from such an edge to
-    the deciding test) and is tested once after all of them.  Returns (local, Switch) or None."""
-    sws = [switch_on_call(body, c) for c in calls]
-    if not calls or any(s is None or s.kind != 'bool' for s in sws):
+    """`let mut f = false; loop { if call() { f = true; break } } if f {A} else {B}` (also `let mut f = first_test(); if !f
+    { loop { if call() { f = true; break } } }`): a bool local that is false - or holds the outcome of one of `calls` - before
+    every other of `calls`, becomes true exactly on their true edges (on every path from such an edge to a test of the
+    flag), is never reset afterwards and is tested once after all of them.  Returns (local, Switch) or None."""
+    if not calls:
         return None
-    assigns = {}
+    assigns = {}; direct = {}
     bad = set()
     for i, k, st in body.stmts():
         if st['k'] == 'assign' and not st['lhs'][1] and body.local_ty(st['lhs'][0]) == 'bool':
             c = op_const(st['rv']['op']) if st['rv']['k'] == 'use' else None
-            if c is None or not isinstance(c.get('v'), bool):
-                bad.add(st['lhs'][0])
-            else:
+            if c is not None and isinstance(c.get('v'), bool):
                 assigns.setdefault(st['lhs'][0], []).append((i, c['v']))
+                continue
+            rs = provenance(body, st['rv']['op'], i, k, through=None) if st['rv']['k'] == 'use' else []
+            hit = [t for t in calls if rs and all(r.kind == 'call' and r.call.bb == t.bb and not r.path for r in rs)]
+            if len(hit) == 1:
+                direct.setdefault(st['lhs'][0], []).append((i, hit[0]))
+            else:
+                bad.add(st['lhs'][0])
     for c in body.calls():
-        if c.dest is not None and not c.dest[1]:
-            bad.add(c.dest[0])
-    for f, sites in sorted(assigns.items()):
+        if c.dest is not None and not c.dest[1] and body.local_ty(c.dest[0]) == 'bool':
+            if any(c.bb == t.bb for t in calls):
+                direct.setdefault(c.dest[0], []).append((c.bb, c))
+            else:
+                bad.add(c.dest[0])
+    for f in sorted(set(assigns) | set(direct)):
+        if f not in body.local_names and f not in assigns:
+            continue          # a temporary holding one call's result, not a flag
         if f in bad:
             continue
+        sites = assigns.get(f, [])
         trues = [i for (i, v) in sites if v]; falses = [i for (i, v) in sites if not v]
-        if not trues or not falses:
+        dsites = direct.get(f, [])
+        dcalls = [t for (_, t) in dsites]
+        others = [c for c in calls if not any(c.bb == t.bb for t in dcalls)]
+        if not (falses or dsites) or not (trues or dsites):
+            continue
+        sws = [switch_on_call(body, c) for c in others]
+        if any(s is None or s.kind != 'bool' for s in sws):
             continue
         if not all(any(only_via_edge(body, s.b, s.target(True), t) for s in sws) for t in trues):
             continue
-        if not all(all(body.dominates(x, c.bb) for c in calls) for x in falses):
+        resets = falses + [i for (i, _) in dsites]
+        if not all(all(body.dominates(x, c.bb) for c in others) for x in resets):
             continue
-        if any(body.reaches(t, falses) for t in trues):
+        if any(body.reaches(t, resets) for t in trues) or any(body.reaches(c.bb, [x for x in resets if x != c.bb]) for c in calls):
             continue
         readers = [s for s in switches(body) if s.kind == 'bool' and switch_reads_local(body, s, f)]
         dec = [s for s in readers if not body.reaches(s.b, [c.bb for c in calls])]
